@@ -837,6 +837,25 @@ def write_replay(ctx, pid, n, rec, jobname):
                 doc["inputs"].append(inp)
         except Exception as e:  # replay stays usable as a record even without inputs
             doc["note"] = "could not expand access sequence: %s" % e
+    elif "line" in rec and str(JOBS.get(jobname, {}).get("env", {}).get("TRACE", "")).startswith("art:"):
+        # a recorded call: the inputs of its run, from the last reset up to and including the line
+        try:
+            tpath = ctx.art(JOBS[jobname]["env"]["TRACE"][4:])
+            upto = int(rec["line"])
+            run = []
+            with open(tpath) as f:
+                for n, l in enumerate(f, 1):
+                    if n > upto:
+                        break
+                    x = json.loads(l)["in"]
+                    if x[0] == "reset":
+                        run = []
+                    else:
+                        run.append(x)
+            doc["component"] = comp
+            doc["inputs"] = run
+        except Exception as e:
+            doc["note"] = "could not extract the run from the trace: %s" % e
     elif str(rec.get("kind", "")).startswith("isolation-"):
         doc["component"] = comp
         doc["inputs"] = list(rec.get("ev", [])) + [["byte", b] for b in rec.get("bytes", [])] + [["bit", b] for b in rec.get("bits", [])]
